@@ -189,6 +189,29 @@ class Exec:
         self.hostile_valid_legacy = 0
         self.n_valid = 0
         self.n_delivered = 0
+        self.second_pointer: set = set()
+
+    def _note_second_pointers(self, data: bytes) -> None:
+        """domain bookkeeping only: pointer records owned by a name that merely ends in the browsed type"""
+        from zeroconf import DNSIncoming
+
+        found = []
+        try:
+            m = wire.strict_decode_lenient_len(data)
+            found += [(wire.name_text(r['name']), wire.name_text(r['rd']['target'])) for r in m['an'] + m['ns'] + m['ar']
+                      if r['type'] == 12 and isinstance(r.get('rd'), dict) and 'target' in r['rd']]
+        except BaseException:  # noqa
+            pass
+        try:
+            inc = DNSIncoming(data)
+            if inc.valid:
+                found += [(r.name, r.alias) for r in inc.answers() if r.type == 12 and hasattr(r, 'alias')]
+        except BaseException:  # noqa
+            pass
+        for owner, alias in found:
+            o = owner.lower()
+            if o != TYPE_B.lower() and o.endswith('.' + TYPE_B.lower()):
+                self.second_pointer.add(alias.lower())
 
     def _state(self, w: sim.World, v: sim.Host, lst: sim.RecListener) -> Tuple:
         cache = tuple(sorted((k, repr(r), r.created, r.ttl) for k, store in v.zc.cache.cache.items() for r in store))
@@ -272,6 +295,7 @@ class Exec:
                             self.hostile_valid_legacy += 1
                 except BaseException:  # noqa  (classification only)
                     pass
+            self._note_second_pointers(data)
             if w.errors:
                 return
         # ---- canary --------------------------------------------------------------------------------------
@@ -327,7 +351,12 @@ class Exec:
             ep.proto.datagram_received(ann, src3)
         await asyncio.sleep(0.01)
         live = lst.live().get(TYPE_B, set())
-        self.canary['reannounced_missing'] = [f'peer{k}.{TYPE_B}' for k in used if f'peer{k}.{TYPE_B}' not in live]
+        # not judged: instances the stream also advertised through a pointer owned by a longer name (`x._b._tcp.local.`), which a
+        # browser of the type takes for a subtype pointer of its own - two pointers to one instance, expiring independently, are
+        # outside the domain in which the browser's add/remove bookkeeping is defined (C04 says so explicitly)
+        self.canary['reannounced_missing'] = [f'peer{k}.{TYPE_B}' for k in used if f'peer{k}.{TYPE_B}' not in live
+                                              and f'peer{k}.{TYPE_B}'.lower() not in self.second_pointer]
+        self.canary['reannounce_judged'] = len([k for k in used if f'peer{k}.{TYPE_B}'.lower() not in self.second_pointer])
         # a peer that announces itself twice with the very same bytes, 1.7-2.1 s apart (possibly with an unparsable datagram in
         # between): the second copy is not a link-layer duplicate and has to refresh the cache - its 2 s SRV record must still be
         # usable 3 s after the first copy
@@ -424,5 +453,9 @@ def check(case: Dict[str, Any]) -> Dict[str, Any]:
         classes.append('hostile-but-parsable-from-legacy-port')
     if getattr(ex, 'side_cancelled', 0):
         classes.append('application-cancelled-a-lookup-as-a-datagram-arrived')
+    if ex.canary.get('reannounce_judged'):
+        classes.append('instance-of-the-stream-announced-again-and-judged')
+    if ex.second_pointer:
+        classes.append('second-pointer-from-longer-owner-name (instance not judged on re-announcement)')
     return {'nontrivial': ex.hostile_valid_legacy > 0, 'classes': classes, 'max': {'stream': len(case['stream'])},
             'sample': {'case': {'socks': case['socks'], 'n': len(case['stream']), 'first': case['stream'][0]}}}
